@@ -119,6 +119,34 @@ def run(ctx):
                                    "an enumeration / flag member changed its numeric value")
 
 
+    # the enumeration a parameter is typed with - found through the command's own schema, not by module path - keeps the
+    # pinned members' values (a re-export that starts to point at another enumeration of the same name is drift)
+    penums = json.load(open(os.path.join(common.VERIF, "corpus", "C19", "param_enums.json")))
+    for h, idxs in by_header.items():
+        keys = penums.get(str(h))
+        if not keys or len(idxs) != 1:
+            continue
+        cls = tab[idxs[0]][0]
+        params = list(cls.schema)
+        if len(params) != len(keys):
+            continue                      # reported as wire drift above
+        for p, key in zip(params, keys):
+            if key is None or key not in pinned["enums"]:
+                continue
+            T = p.type
+            ctx.case(("param-enum", h, p.name), nontrivial=True)
+            ctx.count("param-enum")
+            for name, val in pinned["enums"][key].items():
+                if hasattr(T, name):
+                    try:
+                        cur = int(getattr(T, name))
+                    except Exception:
+                        continue
+                    if cur != val:
+                        ctx.counterexample("enum-drift", dict(cls=tab[idxs[0]][1], parameter=p.name, enum=key, member=name,
+                                                              current_type=getattr(T, "__module__", "?") + "." + getattr(T, "__qualname__", "?")),
+                                           val, cur, "the enumeration a command parameter is typed with gives a pinned member another numeric value")
+                        break
     # wire image of listed and unlisted values: a value an NCP sends that the table does not list (a newer firmware's
     # status code, reserved flag bits) must travel unchanged in both directions, as at the pinned revision
     wire = json.load(open(os.path.join(common.VERIF, "corpus", "C19", "enum_wire.json")))
